@@ -81,6 +81,8 @@ def _effects(v: PathView) -> frozenset:
 
 def tokenizer_table(ctx: Ctx, rule: str) -> None:
     fn = ctx.repo.func(PFC)
+    ctx.require_locals(PFC, ["tests_str", "nets_str", "vm_strs", "param_dict", "use_tests_default", "use_vms_default", "with_selected_vms",
+                             "with_explicit_nets", "with_nontrivial_restrictions", "key", "value", "re_param", "available_vms", "available_restrictions"])
     loop = the_loop(ctx, PFC, ast.For, lambda l: ast.unparse(l.iter) == "config['params']", "tokenizing loop over config['params']")
     views = _one_iteration_paths(loop_iteration_views(ctx, PFC, loop, None), loop)
     matchers = [
